@@ -4,3 +4,9 @@ import X86Model.Model.Addr
 import X86Model.Model.Page
 import X86Model.Spec.Canon
 import X86Model.Properties.C05
+import X86Model.Generated.Consts
+import X86Model.Model.Codecs
+import X86Model.Spec.ArchTable
+import X86Model.Spec.Codecs
+import X86Model.Proofs.Bits
+import X86Model.Properties.C19
